@@ -121,6 +121,8 @@ impl ConsumeUnverifiedBlockProcessor {
             parent_header,
         } = unverified_block;
         let block_hash = block.hash();
+        #[cfg(ckb_verif)]
+        let _verif_section = crate::verif::section();
         // process this unverified block
         let verify_result = self.verify_block(&block, &parent_header, switch);
         match &verify_result {
@@ -176,7 +178,24 @@ impl ConsumeUnverifiedBlockProcessor {
             }
         }
 
+        #[cfg(ckb_verif)]
+        crate::verif::emit(
+            "Verify",
+            &format!(
+                "\"b\":{},\"res\":\"{}\",\"tip\":{},\"td\":\"{:x}\"",
+                crate::verif::h(&block_hash),
+                match &verify_result {
+                    Ok(true) => "new",
+                    Ok(false) => "dup",
+                    Err(_) => "err",
+                },
+                crate::verif::h(&self.shared.snapshot().tip_hash()),
+                self.shared.snapshot().total_difficulty()
+            ),
+        );
         self.is_pending_verify.remove(&block_hash);
+        #[cfg(ckb_verif)]
+        crate::verif::emit("VerifyDone", &format!("\"b\":{}", crate::verif::h(&block_hash)));
 
         if let Some(callback) = verify_callback {
             callback(verify_result);
